@@ -18,6 +18,10 @@ CoefPos == {0, 1}
 OneZero == {0}
 ZSetsA == {<<0, 4>>, <<0, 2, 6>>, <<-4, 0, 4, 12>>, <<2, 4, 8>>}
 ZSetsB == {<<0, 8>>, <<0, 4, 12>>, <<-8, -4, 4>>, <<0, 2, 6, 14>>, <<1, 5, 9, 17>>}
+(* a long gentle segment, a knot exactly at level 0, then a short steep one: the integrand has a sharp  *)
+(* kink at 0 that a quadrature must be told about                                                      *)
+ZSetsSharp == {<<-28, 0, 2>>, <<-28, 0, 2, 8>>, <<-14, -2, 0, 1>>}
+ExpsSharp == {-6, 0, 8}
 ExpsA == {-2, 0, 2, 4}
 ExpsB == {-6, -4, 0, 2, 4, 8}
 VARIABLES c, lo, hi, a, b, m, grid, tz, te, tx
